@@ -5,7 +5,7 @@ from ..paths import PathEnum
 from . import conn
 from .conn import leaves, ret_kind, self_field, find_outcome, pushes, assigns_to
 from .fields import field_writers
-from .util import const_of, is_call, last_seg, look, norm, truth, option_is_some
+from .util import writer_roots, const_of, is_call, last_seg, look, norm, truth, option_is_some
 
 EXPLANATION = (
     "Static decision of the limit checks: the SizeLimitExceeded error of the incremental parser is "
@@ -188,11 +188,11 @@ def handover(ctx):
             a = [e for e in lf.events if e[0] == "assign" and e[3] == "(*_1).payload_max_size"]
             ctx.ob("R04.4", "setter|%s" % name, len(a) == 1 and a[0][4] == ("arg", 2), "%s stores its argument" % name, fn.loc(0))
     callers = sorted({f.name for f in facts.fns.values() if list(f.calls_to(conn.P + "set_payload_max_size"))})
-    ctx.ob("R04.4", "connection-limit-set-only-at-accept", all(c.startswith("server::HttpServer::handle_new_connection") for c in callers) and callers, "HttpConnection::set_payload_max_size is called only while accepting a connection (callers: %s): an open connection keeps the limit it was given" % callers)
+    ctx.ob("R04.4", "connection-limit-set-only-at-accept", callers and all(r.startswith("server::HttpServer::handle_new_connection") for c in callers for r in writer_roots(facts, c)), "HttpConnection::set_payload_max_size is called only while accepting a connection (callers: %s): an open connection keeps the limit it was given" % callers)
     allowed = {conn.HC: {conn.P + "new", conn.P + "set_payload_max_size"}, SRV: {"server::HttpServer::new", "server::HttpServer::new_from_fd", "server::HttpServer::set_payload_max_size"}}
     for adt, ok_fns in allowed.items():
         for w in field_writers(facts, adt, "payload_max_size"):
-            ctx.ob("R04.4", "writers|%s|%s" % (adt.split("::")[-1], w[0]), w[0] in ok_fns, "writer of %s.payload_max_size: %s (%s)" % (adt, w[0], w[3]), w[2])
+            ctx.ob("R04.4", "writers|%s|%s" % (adt.split("::")[-1], w[0]), writer_roots(facts, w[0]) <= ok_fns, "writer of %s.payload_max_size: %s (%s)" % (adt, w[0], w[3]), w[2])
 
 
 def read_guard(ctx):
